@@ -135,8 +135,9 @@ def expected_translated(e):
 
 def check_roundtrip(P, data, cat, charset, text):
     """the property on one spelling: load(p) == c.  → counterexample dict or None"""
+    hist_index = len(P._history)
     kind, v, stderr = P.real_load(data)
-    base = {'charset': charset, 'file_hex': data.hex(), 'file_text': text,
+    base = {'charset': charset, 'file_hex': data.hex(), 'file_text': text, '_hist_index': hist_index,
             'replay': 'write bytes.fromhex(file_hex) to x.po; lib.check.Checker.patch_environment(); polib.pofile("x.po")'}
     if kind != 'ok':
         return dict(base, kind='spelling-rejected', observed=P.canon_error(v) + ' ' + repr(v)[:200], expected='the catalog')
@@ -226,6 +227,136 @@ def falsify_checker(P, items):
             return {'kind': 'checker-load-differs', 'charset': cs, 'file_hex': data.hex(), 'file_text': text, 'observed': out[:600], 'expected': want[:600],
                     'replay': 'Checker(path).check() with check_comments intercepted: ctx.file vs polib.pofile(path)'}
     return None
+
+def judge_fresh(res, cat):
+    """the property on the result of one load op run by po_fresh: None if it is the catalog, else a description"""
+    if 'tuple' not in res:
+        return 'rejected: ' + res.get('canon', '?') + ' ' + res.get('error', '')
+    exp = P_tuple_json(G.expected(cat))
+    if res['tuple'] != exp:
+        (eh, ee), (gh, ge) = exp, res['tuple']
+        if eh != gh:
+            return f'header comment: expected {eh!r}, loaded {gh!r}'
+        if len(ee) != len(ge):
+            return f'number of entries: expected {len(ee)}, loaded {len(ge)}'
+        for i, (a, b) in enumerate(zip(ee, ge)):
+            for k, x, y in zip(G.FIELDS, a, b):
+                if x != y:
+                    return f'entry {i} field {k}: expected {x!r}, loaded {y!r}'
+    want_tr = [expected_translated(e) for e in cat['entries']]
+    if res.get('translated') != want_tr:
+        return f'translated(): {res.get("translated")}, expected {want_tr}'
+    if not res.get('intkeys', True):
+        return 'msgstr_plural has a non-int key'
+    if res.get('stderr'):
+        return 'stderr: ' + res['stderr'][:200]
+    return None
+
+def P_tuple_json(t):
+    import po_common
+    return po_common.tuple_json(t)
+
+def sequence_replay(P, seq, idx, observed, kind='catalog-differs-after-history'):
+    """seq: [(charset, data, text)] loaded in this order in one process; the load at `idx` is wrong"""
+    ops = [{'op': 'check', 'hex': d.hex()} for _cs, d, _t in seq[:idx + 1]]
+    confirmed = None
+    try:
+        r = P.new_process(ops)
+        confirmed = r[-1].get('canon')
+    except Exception as exc:
+        confirmed = 'could not re-run: ' + repr(exc)[:100]
+    return {'kind': kind, 'history': True,
+            'sequence': [{'file': f'f{i}.po', 'charset': cs, 'file_hex': d.hex(), 'file_text': t} for i, (cs, d, t) in enumerate(seq[:idx + 1])],
+            'failing_index': idx, 'observed': observed,
+            'alone': 'the last file, loaded alone in a fresh process, yields its catalog',
+            'last_result_in_a_new_process': (confirmed or '')[:600],
+            'replay': 'write the files of `sequence` (bytes.fromhex(file_hex)) as f0.po, f1.po, …; then ONE run of the tool: `i18nspector f0.po f1.po …` '
+                      '(or, in one python process, Checker(path, options).check() for each IN THIS ORDER): the last file is not read as its catalog; '
+                      'it is when it is the first (or only) file of the process. '
+                      'Or: echo the list [{"op":"check","hex":file_hex}, …] | tools/checks/po_fresh.py run'}
+
+def sequence_stream(chk, P, fresh, n_groups):
+    """files in different charsets sharing textually identical escaped lines, loaded in every order, each order in its own pristine
+    process: every load must yield the file's own catalog (C10's "for any charset", under repetition)"""
+    rng = chk.rng
+    import itertools
+    stats = {'groups': 0, 'sequences': 0, 'loads': 0, 'charset_pairs': {}}
+    lines, impls = [], []
+    for _ in range(n_groups):
+        g = G.gen_shared_group(rng)
+        if not g:
+            continue
+        files = []
+        try:
+            for cs, cat, text in g:
+                files.append((cs, cat, text, text.encode(cs)))
+        except UnicodeError:
+            continue
+        stats['groups'] += 1
+        key = '+'.join(sorted(f[0] for f in files))
+        stats['charset_pairs'][key] = stats['charset_pairs'].get(key, 0) + 1
+        perms = list(itertools.permutations(range(len(files))))
+        if len(perms) > 2:
+            perms = rng.sample(perms, 3)
+        for perm in perms:
+            seq = [files[i] for i in perm]
+            res = fresh.run([{'op': 'check', 'hex': f[3].hex()} for f in seq])
+            o, skip = P.oracle_for(b'\n'.join(f[3] for f in seq), 'ISO-8859-1', table_ok=False)   # multi-byte charsets: no exact decoder in the driver
+            if not skip:
+                lines.append(f'po loadseq {o} ' + ' '.join(f[3].hex() for f in seq))
+                impls.append(' || '.join(r.get('canon', '?') for r in res))
+            stats['sequences'] += 1
+            stats['loads'] += len(seq)
+            for idx, (f, r) in enumerate(zip(seq, res)):
+                bad = judge_fresh(r, f[1])
+                if bad is None:
+                    continue
+                alone = fresh.run([{'op': 'check', 'hex': f[3].hex()}])[0]
+                if judge_fresh(alone, f[1]) is not None:
+                    return {'kind': 'catalog-differs', 'charset': f[0], 'file_hex': f[3].hex(), 'file_text': f[2], 'observed': judge_fresh(alone, f[1]),
+                            'expected': 'load(p) == c', 'replay': 'write bytes.fromhex(file_hex) to x.po; lib.check.Checker.patch_environment(); polib.pofile("x.po")'}, stats
+                # history-dependent: the shortest prefix that still breaks it
+                keep = list(range(idx))
+                for drop in list(keep):
+                    trial = [seq[j] for j in keep if j != drop] + [f]
+                    rr = fresh.run([{'op': 'check', 'hex': x[3].hex()} for x in trial])
+                    if judge_fresh(rr[-1], f[1]) is not None:
+                        keep.remove(drop)
+                short = [seq[j] for j in keep] + [f]
+                return sequence_replay(P, [(x[0], x[3], x[2]) for x in short], len(short) - 1, bad), stats
+    if lines and os.path.exists(common.driver_path()):
+        try:
+            chk.stream('po-load-sequence', lines, impls)
+        except common.Infra:
+            pass
+    return None, stats
+
+def classify_history(chk, P, fresh, cex, last, bad, seq_cex, hist_index=None):
+    """an operation that went wrong inside this long-running process (`last`, judged by `bad(result)`): does it go wrong in a fresh
+    process too?  If not, the failure depends on what the process did before: shrink that history."""
+    if cex is None:
+        return cex
+    pub = {k: v for k, v in cex.items() if not k.startswith('_')}
+    alone = fresh.run([last])[0]
+    if bad(alone):
+        return dict(pub, fresh_process='fails in a fresh process too')
+    if seq_cex is not None:
+        return dict(seq_cex, also='the same kind of failure was first seen in the check process: ' + str(cex.get('observed'))[:300])
+    prefix = list(P._history[:hist_index]) if hist_index is not None else list(P._history)
+    short = P.shrink_history(fresh, prefix, last, bad)
+    if short is None:
+        return dict(pub, kind='catalog-differs-after-history', history=True,
+                    fresh_process='the input gives the right result in a fresh process; replaying the recorded history of this check process did not reproduce the failure')
+    ops = short + [last]
+    try:
+        confirmed = P.new_process(ops)[-1].get('canon', '')[:600]
+    except Exception as exc:
+        confirmed = 'could not re-run: ' + repr(exc)[:100]
+    return {'kind': 'catalog-differs-after-history', 'history': True, 'charset': cex.get('charset'), 'observed': cex.get('observed'),
+            'sequence': ops, 'failing_index': len(ops) - 1, 'history_length_before_shrinking': len(prefix), 'expected_last_result': cex.get('expected'),
+            'alone': 'the last op, run alone in a fresh process, gives the right result', 'last_result_in_a_new_process': confirmed,
+            'replay': 'echo the JSON list `sequence` | tools/checks/po_fresh.py run   (all ops in ONE new process, in this order; the last result is wrong; '
+                      'load ops: write bytes.fromhex(hex) to a file and polib.pofile(path) after Checker.patch_environment())'}
 
 def main():
     chk = common.Check('C10')
@@ -359,10 +490,27 @@ def main():
     else:
         print(f'KNOWN-FINDING-RESOLVED: property=C10 {key}: the real loader now reads the witness in the charset its header declares')
     chk.coverage['open_findings'] = open_state
+    # ------------------------------------------------------------------ history independence: sequences of loads in one process
+    fresh = P.Fresh()
+    # C10_NO_SEQ=1 (self-test of the generic path only): skip the deliberate sequences, so that a history-dependent failure has to be
+    # recognised and shrunk from the recorded history of this process
+    seq_cex, seq_stats = sequence_stream(chk, P, fresh, 0 if os.environ.get('C10_NO_SEQ') else (600 if T else 60) * mult)
+    chk.evaluations += seq_stats['loads']
+    chk.coverage['sequence_stream'] = dict(seq_stats, found=seq_cex is not None)
+    # correspondence disagreements: is the real code's answer for that file the same in a fresh process?
+    for d in disagree_files[:6]:
+        if seq_cex is not None:
+            break
+        now = P.impl_load(d)
+        alone = fresh.run([{'op': 'load', 'hex': d.hex(), 'enc': None}])[0].get('canon')
+        if now != alone:
+            cex = classify_history(chk, P, fresh, {'kind': 'catalog-differs-after-history', 'file_hex': d.hex(), 'observed': now[:400], 'expected': (alone or '')[:400]},
+                                   {'op': 'load', 'hex': d.hex(), 'enc': None}, lambda r: r.get('canon') != alone, None, len(P._history) - 1)
+            break
     extra_wf = wf if not chk.broken else wf + wellformed(rng, n_wf * (mult - 1), charsets)
     if T and not chk.broken:
         extra_wf = wf + wellformed(rng, n_wf, charsets)
-    for data, cat, cs, text in extra_wf:
+    for data, cat, cs, text in (extra_wf if cex is None else []):
         stats['spellings'] += 1
         stats['charsets'][cs] = stats['charsets'].get(cs, 0) + 1
         stats['entries'] += len(cat['entries'])
@@ -371,19 +519,32 @@ def main():
         stats['with_previous'] += sum(1 for e in cat['entries'] if e['previous_msgid'] is not None)
         cex = check_roundtrip(P, data, cat, cs, text)
         if cex:
-            try:
-                cex = shrink(P, rng, cex, cat, cs)
-            except Exception:
-                pass
+            cex = classify_history(chk, P, fresh, cex, {'op': 'load', 'hex': data.hex(), 'enc': None},
+                                   lambda r, cat=cat: judge_fresh(r, cat) is not None, seq_cex, cex.get('_hist_index'))
+            if not cex.get('history'):
+                try:
+                    cex = shrink(P, rng, cex, cat, cs)
+                except Exception:
+                    pass
             break
     if not cex:
         cases = spelled_strings(rng, (60000 if T else 8000) * mult)
         stats['unescape_cases'] = len(cases)
         cex = falsify_unescape(P, cases)
+        if cex:
+            want = 'ok ' + P.hexchars(cex['text'])
+            cex = classify_history(chk, P, fresh, cex, {'op': 'unescape', 'enc': cex['charset'], 's': cex['spelling']},
+                                   lambda r, want=want: r.get('canon') != want or bool(r.get('stderr')), seq_cex, None)
     if not cex:
         sub = wf[:(3000 if T else 300) * mult]
         stats['checker_runs'] = len(sub)
         cex = falsify_checker(P, sub)
+    if not cex and seq_cex is not None:
+        cex = seq_cex
+    if cex is not None:
+        cex = {k: v for k, v in cex.items() if not k.startswith('_')}
+    chk.coverage['fresh_process_runs'] = fresh.requests
+    fresh.close()
     chk.evaluations += stats['spellings'] + stats['unescape_cases'] + stats['checker_runs']
     chk.coverage['falsifier'] = dict(stats, found=cex is not None)
     if cex is not None:
@@ -418,13 +579,17 @@ EXPLANATION = (
     'header comment, per entry any interleaving of # / #. / #: / #, / #| lines with #| "..." continuations and noise lines, msgctxt? msgid (msgstr | msgid_plural msgstr[0..N<=9]) '
     'behind #~ or not, cuts anywhere between characters, padding -> polib\'s line loop yields exactly header comment and per entry msgctxt, msgid, msgid_plural, msgstr, indexed '
     'plurals, flags, obsolete, previous_*, occurrences, extracted and translator comments, in order); comments_attributed; codecs_open_keeps_body, phys_lines (Codecs.open); '
+    'load_render_partial (END TO END from Spec.render: for every Valid FileSp and every ASCII-compatible charset satisfying CodecOk that can encode its text, polib.pofile(path, encoding) '
+    'on the rendered BYTES yields the catalog - no hypothesis about the file), load_render_detected_partial + detect_header_general (charset detected; header forms with any parameters in which '
+    '" charset=" cannot start), load_sequence_independent + load_after_any_history (a list of files in one process = the list of single loads); '
     'load_spells_file_partial (decode + Codecs.open + line loop composed for every CatalogSp: hypotheses only about the file - it decodes, its lines are body ++ held-back tail, body '
     'normalises to the spelling) with codecs_open_holds_trailing (noise and first-column comments are held back); translated_iff; regex_pins; witnesses of the repaired '
     'defects (trailing_ignored_comment_witness for ed9c45c, unescape_octal_fix for 9de4551). REFUTED by kernel-evaluated witnesses and recorded as OPEN findings, replayed on the real '
     'loader each run: load_spells_refuted (a continuation cut between the escaped bytes of one character is a syntax error), detect_first_match_refuted (the charset of the first line '
     'matching polib\'s detect_encoding pattern wins, e.g. a comment). detect_header + load_spells_detected_partial: polib.pofile(path) itself (detection, decode, Codecs.open, line loop) yields the '
-    'catalog when the first line matching polib\'s pattern is the header\'s "Content-Type: text/plain; charset=NAME line. OUTSTANDING: the file-side hypotheses of that theorem are not derived '
-    'from a rendering function CatalogSp -> bytes; other header forms are tied by po-detect only; linenum is projected away. polib itself is third-party code '
+    'catalog when the first line matching polib\'s pattern is the header\'s "Content-Type: text/plain; charset=NAME line. OUTSTANDING: the byte-level precondition of charset detection (first matching byte line = the header\'s '
+    'Content-Type line) cannot follow from the spelling alone; FileSp takes comments in normal form (#text is normalised by Codecs.open: load_spells_file_partial); linenum is projected away. '
+    'History independence is tied by po-load-sequence and the sequence falsifier (fresh-process re-run + history shrinking). polib itself is third-party code '
     'modelled by hand: its tie is the correspondence (transition table regenerated each run). Excluded spellings: msgstr[N] N>=10, octal above \\377, two string tokens on one line, '
     'translator comments of the first entry (they are the header comment).')
 
